@@ -71,15 +71,13 @@ def available(sim, t, o):
     if t.startswith("node-file-"):
         fo, fi = _file(node, o["folder_name"], o["file_name"])
         v = t[len("node-file-"):]
-        if v == "restore":      # implemented rule on the pinned tree: the file exists (live or deleted); the doc says "is deleted"
-            return on and fi is not None
+        # implemented rule on the pinned tree: every file verb, restore included, goes through the folder and file
+        # "exists and is not deleted" rules (the doc table says "is deleted" for restore; the code cannot satisfy that)
         return on and fi == "live" and fo == "live"
     if t.startswith("node-folder-"):
         fo, _ = _file(node, o["folder_name"], None)
         v = t[len("node-folder-"):]
-        if v == "restore":      # implemented rule: the folder exists (live or deleted)
-            return on and fo is not None
-        return on and fo == "live"
+        return on and fo == "live"      # restore included (same remark as for files)
     if t in ("host-nic-enable", "host-nic-disable"):
         nic = node.network_interface.get(o["nic_num"])
         if nic is None:
